@@ -271,11 +271,7 @@ Proof.
 Qed.
 
 (* ---------------------------------------------------------------------------------------------
-   Non-vacuity: the premises above are satisfiable. *)
-Definition ex_nrm5 : nat -> (nat -> Qc) -> Qc := fun _ _ => qc 5 1.
-Definition ex_x0 : nat -> Qc := vec_of_list [qc 0 1; qc 0 1].
-Definition ex_x1 : nat -> Qc := vec_of_list [qc 1 1; qc 1 1].
-Definition ex_x2 : nat -> Qc := vec_of_list [qc 4 1; qc 5 1].
+   Non-vacuity: the premises above are satisfiable (ex_nrm5, ex_x0..2 are defined in Lemmas.v). *)
 
 (* a rising profile E = 0 < 1 < 2 with tangent x2 - x1 = (3,4), norm 5: premises of
    force_decomposition / ci_force hold *)
